@@ -106,7 +106,8 @@ def run(ctx):
                 ctx.count('injection:' + inj['status'])
                 continue
             price = pr['nodal price: ' + inj['node']][inj['step']]
-            if inj['value'] > o['value'] + price * inj['d'] + 1e-5 * scale:
+            # (the solver's tolerance is relative to the magnitudes involved: values, and price x injection on rescaled instances)
+            if inj['value'] > o['value'] + price * inj['d'] + 1e-5 * scale + 1e-7 * (abs(price * inj['d']) + abs(inj['value'])):
                 ctx.violation('impl-violation', {'spec': sp, 'observed': {'injection': inj, 'price': price, 'value': o['value']},
                                                  'expected': 'value(d) <= value + price*d'}, trigger={'what': 'supergradient'})
     # ---- split results: the interval problems form a direct sum; the price table must certify optimality of the concatenated point
